@@ -83,6 +83,7 @@ def run(ctx):
     r7_reward_definitions(ctx, fn)
     r8_reader_rows(ctx)
     r9_label_key_domain(ctx)
+    r10_take_and_levels(ctx)
 
 
 def _final_loops(fn):
@@ -271,6 +272,33 @@ def r8_reader_rows(ctx):
 ROWS = "coba/pipes/rows.py"
 
 
+def r10_take_and_levels(ctx):
+    ctx.rule("C14.R10", "the seeded reservoir sample behind `take` is the same on every read (Reservoir draws from a generator created per filter() call from its seed); "
+                        "the class list of a nominal attribute, which becomes the action set, is duplicate-free (CategoricalEncoder de-duplicates its levels)")
+    from . import c04
+    PFL = "coba/pipes/filters.py"
+    fam = {k: c for k, c in c04.family(ctx).items() if c.name == "Reservoir" and c.rel == PFL}
+    c04.r4_fresh_rng(ctx, fam, rule="C14.R10", only={"Reservoir"})
+    flt = ctx.fn(PFL, "Reservoir.filter")
+    made = [c for c in walk_shallow(flt) if isinstance(c, ast.Call) and call_name(c) == "CobaRandom"]
+    ctx.ob("C14.R10", PFL, "Reservoir.filter", made[0] if made else flt, "Reservoir creates its generator inside filter() from self._seed", len(made) == 1 and [unparse(a) for a in made[0].args] == ["self._seed"],
+           stmt="Reservoir generator per read")
+    ENCM = "coba/encodings.py"
+    init = ctx.fn(ENCM, "CategoricalEncoder.__init__")
+    P = init.args.args[1].arg
+    cats = [c for c in ast.walk(init) if isinstance(c, ast.Call) and call_name(c) == "Categorical" and len(c.args) == 2]
+    ctx.floor("C14.R10", "Categorical(...) constructions in CategoricalEncoder.__init__", len(cats), 1)
+    for c in cats:
+        lv = c.args[1]
+        srcs = [lv] if not isinstance(lv, ast.Name) else ([v for v in assigned_value(init, lv.id)] + ([ast.Name(id=lv.id)] if lv.id == P else []))
+        # every way the levels can be bound is either set-derived or guarded by `len(x) == len(set(x))`
+        dedup_rebind = [st for st in ast.walk(init) if isinstance(st, ast.If) and "len(" in unparse(st.test) and "set" in unparse(st) and
+                        any(isinstance(b, ast.Assign) and isinstance(b.targets[0], ast.Name) and b.targets[0].id == (lv.id if isinstance(lv, ast.Name) else "") and "set" in unparse(b.value) + unparse(st.test) for b in st.body)]
+        direct = any(isinstance(v, ast.Call) and ("set(" in unparse(v) or "dict.fromkeys" in unparse(v)) for v in srcs if not isinstance(v, ast.Name))
+        ctx.ob("C14.R10", ENCM, "CategoricalEncoder.__init__", c, "the level list handed to every Categorical is free of duplicates (set-derived, or re-bound to a set-derived list when it has duplicates)",
+               bool(dedup_rebind) or (direct and not any(isinstance(v, ast.Name) for v in srcs)), detail={"levels": unparse(lv)}, stmt="levels de-duplicated")
+
+
 def r9_label_key_domain(ctx):
     """LabelSparse reads the label with row[key] and removes it with DropSparse(row, {key}), which compares `key` against row.keys().
     Both agree only if every key row[...] accepts is a key row.keys() reports."""
@@ -301,6 +329,9 @@ def r9_label_key_domain(ctx):
 
 
 CONTROLS = [
+    ("levels keep their duplicates", "coba/encodings.py", M.delete_stmt("CategoricalEncoder.__init__", lambda st: isinstance(st, ast.If) and "set_values" in ast.unparse(st.test)), "C14.R10"),
+    ("Reservoir keeps its generator", "coba/pipes/filters.py", M.chain(M.insert_after("Reservoir.__init__", M.simple_has("self._seed = seed"), "self._rng = CobaRandom(seed)"),
+                                                                      M.replace_expr("Reservoir.filter", "CobaRandom(self._seed)", "self._rng")), "C14.R10"),
     ("union taken as the larger set", PRIM, M.replace_expr("HammingReward.__call__", "len(argmax) + len(comparable) - n_intersect", "max(len(argmax), len(comparable))"), "C14.R7"),
     ("tuple labels unwrapped", SUP, M.replace_expr("SupervisedSimulation.read", "isinstance(l, list)", "isinstance(l, (list, tuple))"), "C14.R7"),
     ("label-only lines dropped", RDR, M.replace_expr("LibsvmReader.filter", "not no_label_line", "len(items) > 1 and (not no_label_line)"), "C14.R8"),
